@@ -43,6 +43,7 @@ type txmBeh struct {
 
 // countingProcessor is the TxProcessor / TxSaver behind TxManager.Run.
 type countingProcessor struct {
+	gate      chan struct{} // if set: the first ProcessTx waits until it is closed (a processor slower than the peer)
 	mu        sync.Mutex
 	cond      *sync.Cond
 	processed map[bitcoin.Hash32]int
@@ -59,6 +60,9 @@ func newCountingProcessor() *countingProcessor {
 }
 
 func (p *countingProcessor) ProcessTx(ctx context.Context, tx *wire.MsgTx) (bool, error) {
+	if p.gate != nil {
+		<-p.gate
+	}
 	p.mu.Lock()
 	defer p.mu.Unlock()
 	h := *tx.TxHash()
